@@ -247,6 +247,7 @@ class PageBreakCalculator(BaseModel):
         font_size: float = 9,
         additional_rows_per_page: int = 0,
         new_page: bool = False,
+        pageby_headers_rendered: bool = True,
     ) -> pl.DataFrame:
         """Generate complete row metadata for pagination."""
 
@@ -331,7 +332,7 @@ class PageBreakCalculator(BaseModel):
 
             # 2. Calculate header rows
             pageby_rows = 0
-            if page_by and page_by_changes[row_idx]:
+            if page_by and page_by_changes[row_idx] and pageby_headers_rendered:
                 # Construct header text
                 header_parts = []
                 for col in page_by:
